@@ -311,7 +311,7 @@ void carquet_avx2_prefix_sum_i32(int32_t* values, int64_t count, int32_t initial
 
     /* Handle remaining values */
     for (; i < count; i++) {
-        sum += values[i];
+        sum = (int32_t)((uint32_t)sum + (uint32_t)values[i]);  /* wrap-around, no signed overflow */
         values[i] = sum;
     }
 }
@@ -355,7 +355,7 @@ void carquet_avx2_prefix_sum_i64(int64_t* values, int64_t count, int64_t initial
 
     /* Handle remaining values */
     for (; i < count; i++) {
-        sum += values[i];
+        sum = (int64_t)((uint64_t)sum + (uint64_t)values[i]);  /* wrap-around, no signed overflow */
         values[i] = sum;
     }
 }
@@ -521,7 +521,7 @@ void carquet_avx2_unpack_bools(const uint8_t* input, uint8_t* output, int64_t co
 
     /* Process 32 bools (4 bytes) at a time */
     for (; i + 32 <= count; i += 32) {
-        int byte_idx = (int)(i / 8);
+        size_t byte_idx = (size_t)(i / 8);
         uint32_t packed;
         memcpy(&packed, input + byte_idx, 4);
 
@@ -553,7 +553,7 @@ void carquet_avx2_unpack_bools(const uint8_t* input, uint8_t* output, int64_t co
 
     /* Handle remaining */
     for (; i < count; i++) {
-        int byte_idx = (int)(i / 8);
+        size_t byte_idx = (size_t)(i / 8);
         int bit_idx = (int)(i % 8);
         output[i] = (input[byte_idx] >> bit_idx) & 1;
     }
